@@ -31,6 +31,15 @@ claimed = {
  'C26': ('exploration', 'runtime monitor: per distinct transaction bytes, payer balances read around every (re)delivery',
          'After a delivery of some bytes has been charged (accepted or failed inside Run), every later delivery of the same bytes must be rejected and cost nothing. Known finding: failed-in-Run transactions keep their nonce and are charged again.',
          'payer = sender or check issuer; deliveries rejected before execution at no cost do not count as the first delivery', '5/C26'),
+ 'C10': ('fault_enumeration', 'fault-injecting DB wrapper numbering every write of Commit across state/events/app stores; every prefix length crashed, restarted, Tendermint-style replay, differential comparison with the uncrashed instance',
+         'For chosen blocks of generated histories every prefix of the Commit write sequence is turned into a process death; the restarted node must report a replayable height (with the right hash when it reports h), replay to the same app hash, and match the uncrashed node on 4 later blocks, Info/emission/versions/validators/price/events and the export. Known findings: crash positions after the app-DB height record.',
+         'process-crash model (completed writes survive, batches atomic); handshake modelled after Tendermint 0.34', '5/C10'),
+ 'C11': ('exploration', 'differential execution: export -> Verify -> import as genesis of a second instance -> re-export diff -> both chains follow the same blocks',
+         'Exports at payout and arbitrary heights must validate, re-import and re-export equal (derived bip values excluded), and after payout-height exports both chains must answer the next 20 blocks with the same codes and equal exports.',
+         'new chain starts at h+1; max_gas excluded (no block-time history in a new chain by design)', '5/C11'),
+ 'C29': ('exploration', 'differential execution through the ABCI snapshot calls: two producers (one restarted) compared chunk by chunk; restored node compared on Info, queries, export and all following blocks',
+         'Snapshots of two producers must be byte-equal; a node restored through OfferSnapshot/ApplySnapshotChunk must report the producer height/hash and then answer every later block identically, with equal queries and exports.',
+         'snapshot completion awaited by hook + bounded polling; chunks transferred unmodified', '5/C29'),
  'C07': ('exploration', 'recover()-guarded ABCI calls in supervised child processes under hostile histories and byte-level mutated inputs',
          'Any recovered panic or worker death during CheckTx/DeliverTx/BeginBlock/EndBlock/Commit is a violation with the recorded history as witness.',
          'os.Exit on accepted halt excluded; fatal runtime errors are caught by child supervision', '5/C07'),
